@@ -57,7 +57,13 @@ var c09BadValues = []string{"bar", "1,5", "1.2.3", "5 g", "12abc", "--5", "1e", 
 func genC09Malformed(t *rapid.T, names []string, label string) string {
 	indent := vIndents[rapid.IntRange(0, len(vIndents)-1).Draw(t, label+".indent")]
 	nm := c09SafeName(names[rapid.IntRange(0, len(names)-1).Draw(t, label+".name")])
-	switch rapid.IntRange(0, 5).Draw(t, label+".kind") {
+	switch rapid.IntRange(0, 8).Draw(t, label+".kind") {
+	case 6: // the only separator before the value is a blank that is not an ASCII blank
+		return indent + nm + ":" + []string{"\u00a0", "\u3000", "\u2003", "\u00a0\u00a0"}[rapid.IntRange(0, 3).Draw(t, label+".nbsp")] + fmt.Sprint(rapid.IntRange(0, 99).Draw(t, label+".v"))
+	case 7: // a list dash in column 0 glued to the name
+		return "-" + nm
+	case 8:
+		return "-" + nm + ": " + c09BadValues[rapid.IntRange(0, len(c09BadValues)-1).Draw(t, label+".bad")]
 	case 0:
 		return indent + nm
 	case 1:
